@@ -24,7 +24,28 @@ CFG = {
             "client Close (with/without status, frames after it), by server drop, by EOF at a frame boundary or at an "
             "arbitrary byte / inside a header, extended length or key; deliveries whole, byte-wise, split inside every "
             "2-byte header, inside extended lengths and keys, frame by frame, at random field cuts, at random cuts, "
-            "with NotYet moments at the start, at field cuts, at the end and anywhere. Non-trivial = every hs case and "
+            "with NotYet moments at the start, at field cuts, at the end and anywhere. "
+            "Large scale (sizes, counts and histories well above small; each session in a WORKER PROCESS on a thread with "
+            "Rust's default 2 MiB stack, 30 s watchdog, so that a process abort or a hang is an observation; scripts, "
+            "deliveries, ops and outputs in run-length form `<count>*<group>`, payloads `g<len>s<seed>`, messages above "
+            "100 000 bytes shown as length + FNV-1a): floods of n identical Ping or Pong frames, n = 1 000 / 20 000 / 200 000 "
+            "(thorough: also 100, 128, 255-257, 1 024, 4 096, 8 192, 12 000, 50 000, 65 536, 100 000, 1 000 000), masked and "
+            "unmasked, empty / 1-7 byte / 125-byte payload, placed before a message, between its two fragments, "
+            "alternating with its fragments (n <= 20 000), after a message, before a Close and with nothing after, "
+            "received by recv and by recv_nonblocking, delivered whole, frame by frame, in 4 096- and 1 460-byte segments and "
+            "byte-wise, now and then with the last byte missing; messages of 100 / 1 000 / 10 000 fragments (thorough: also "
+            "128, 255-257, 1 024, 4 096, 8 192, 20 000) with 1-byte, empty, 3-byte and 300-byte fragments; 100 / 1 000 / "
+            "10 000 (thorough: also 128, 255-257, 1 024, 4 096, 8 192, 20 000) messages on ONE connection (same message, two "
+            "kinds, message+Ping, Pong+message, two-fragment messages, then Close or EOF) read by n+2 recv / "
+            "recv_nonblocking / alternating calls, whole or message by message with a pause after each, and echoed "
+            "(recv, send, ping alternating on the same stream object); data payloads of 125, 126, 127, 65 535, 65 536, "
+            "65 537, 100 000, 100 001, 262 144 bytes and 1 MiB (thorough: also 128, 255-257, 1 000, 1 024, 4 095-4 097, 8 192 ... "
+            "524 288, 1 MiB + 1, 2 MiB, 3 000 000, 4 MiB) masked and unmasked, as a single frame, as first fragment with a Ping "
+            "behind it, as last fragment, delivered whole and in 1 460 / 4 096 / 8 192 / 65 536-byte segments, and several "
+            "64 KiB - 1 MiB messages in a row (quick tier: the 10 000-message count with the shapes `same message` and "
+            "`message+Ping` only, payloads of 262 144 bytes and more whole and in 4 096-byte segments only). Not covered at this scale: more than 20 000 messages or fragments per "
+            "connection (the model's fuel computation is linear in the bytes left per call), payloads above 4 MiB. "
+            "Non-trivial = every hs case and "
             "every sess case with at least one frame; distinct = distinct case line.",
     "exhaustive": True,
     "violation_text": "the WebSocket endpoint does not do what RFC 6455 demands on this input: handshake response "
@@ -33,14 +54,19 @@ CFG = {
                       "recv/recv_nonblocking that is not the one the client's frames denote; a Ping not answered by a "
                       "Pong with the same payload; a Close not answered or not reported as ConnectionClosed; no Close "
                       "frame when the stream is dropped; `nothing yet` from recv_nonblocking although a frame has "
-                      "started to arrive (or a result although nothing has)",
+                      "started to arrive (or a result although nothing has); the process running the session aborted "
+                      "(e.g. stack overflow) or did not answer within the watchdog",
     "trusted_base": ["Spec/WsMsg.lean (messages, replies, framesOf = decoder for the server's output, Client.recv = one "
                      "call at frame level with the delivery as byte positions) and Spec/WsFrame.lean (rfc6455Layout)",
                      "Spec/Base64.lean (RFC 4648) and the plain FIPS 180-1 SHA-1 in Driver/C11.lean, which judge the "
                      "Sec-WebSocket-Accept value of the implementation",
                      "harness/src/c11.rs: the scripted socket (Mock: Data/NotYet events, EOF at the end of the script, "
                      "WouldBlock only in non-blocking mode, one log entry per write call) = the model's Ev script; the "
-                     "harness's own client frame encoder",
+                     "harness's own client frame encoder; the run-length / generated-payload / hashed forms of the case "
+                     "line (expanded identically by c11.rs and Driver/C11.lean) and the worker-process protocol (worker.rs)",
+                     "Model/WsMsg.lean: the compiled code of readExactEv, recvLoop and recvLoopNb is replaced by functions "
+                     "PROVED equal to them (@[csimp] readExactEv_eq_fast, recvLoop_eq_fast, recvLoopNb_eq_fast; axioms "
+                     "propext, Quot.sound only), so that 200 000-frame scripts run in linear time",
                      "Generated/Tables.lean (status phrase and header spelling) is produced by running the code"],
     "assumptions": ["writes succeed (WebsocketError::WriteError is not modelled)",
                     "a read returns at least one byte unless the peer is gone (theorems about deliveries); usize is 64 bits",
